@@ -136,13 +136,26 @@ fn run_one(exec: Execution, prefix: &[usize]) -> (Vec<Step>, RunOutcome, Vec<Str
             break;
         }
         let parked: Vec<usize> = (0..g.slots.len()).filter(|i| g.slots[*i].st == sc::St::Parked).collect();
-        for &i in &parked {
-            g.slots[i].cmd = sc::Cmd::Eval;
-            g.slots[i].reply = None;
-        }
-        s.cv.notify_all();
-        while parked.iter().any(|i| g.slots[*i].reply.is_none()) {
-            g = s.cv.wait(g).unwrap();
+        let t_io = Instant::now();
+        loop {
+            for &i in &parked {
+                g.slots[i].cmd = sc::Cmd::Eval;
+                g.slots[i].reply = None;
+            }
+            s.cv.notify_all();
+            while parked.iter().any(|i| g.slots[*i].reply.is_none()) {
+                g = s.cv.wait(g).unwrap();
+            }
+            // A thread waiting for an I/O completion is waiting for the outside world, not for
+            // another thread: give the completion time to arrive before deciding, so that the
+            // set of enabled threads does not depend on how fast the I/O pool is.
+            let io_pending = parked.iter().any(|i| g.slots[*i].label.starts_with("io.recv") && g.slots[*i].reply == Some(false));
+            if !io_pending || t_io.elapsed() > Duration::from_secs(3) {
+                break;
+            }
+            drop(g);
+            std::thread::sleep(Duration::from_micros(200));
+            g = s.m.lock().unwrap();
         }
         let mut enabled: Vec<usize> = parked
             .iter()
@@ -1056,6 +1069,59 @@ impl SchedX {
                     }),
                 }
             }
+            // two threads prove different keys through ONE session on a cold store (every proof has
+            // to load merkle pages and a value leaf): scheduling points at every I/O submission and
+            // at every wait for a completion of the calling threads
+            "H7" => {
+                let mut cf = cfg();
+                cf.buckets = 4096;
+                cf.rollback = false;
+                let key = "bulk".to_string();
+                if !self.seeds.contains_key(&key) {
+                    let seed = crate::histx::build_seed::<B3>("bulk", &cf, &self.scratch);
+                    self.seeds.insert(key.clone(), Arc::new((seed.image.clone(), seed.model.kv.clone(), vec![crate::histx::seed_keys("bulk")])));
+                }
+                let seed = self.seeds[&key].clone();
+                let dir = self.fresh();
+                seed.0.materialize(&dir).expect("materialize");
+                let n = Arc::new(open_nomt::<B3>(&dir, &cf).expect("open"));
+                let session = Arc::new(n.begin_session(SessionParams::default()));
+                let root = n.root().into_inner();
+                let errs = Arc::new(Mutex::new(Vec::<String>::new()));
+                let mut threads: Vec<Box<dyn FnOnce() + Send>> = vec![];
+                for t in 0..2usize {
+                    let (sess, e, sd) = (session.clone(), errs.clone(), seed.clone());
+                    threads.push(Box::new(move || {
+                        let keys = &sd.2[0];
+                        // keys far apart (different root children), one present key and one absent neighbour each
+                        let k = keys[if t == 0 { 100 } else { 1200 }];
+                        let mut absent = k;
+                        absent[31] ^= 0x01;
+                        for key in [k, absent] {
+                            sc::control_group(sc::IO_POINTS, true);
+                            let r = std::panic::catch_unwind(std::panic::AssertUnwindSafe(|| crate::driver::check_proof::<B3>(&sess, &key, &sd.1, root)));
+                            match r {
+                                Err(_) => e.lock().unwrap().push(format!("prove panicked at {}", crate::last_panic_location())),
+                                Ok(Err(m)) => e.lock().unwrap().push(format!("proof of thread {t}: {m}")),
+                                Ok(Ok(())) => {}
+                            }
+                        }
+                    }));
+                }
+                Execution {
+                    threads,
+                    finish: Box::new(move || {
+                        sc::control_group(sc::IO_POINTS, false);
+                        let e = errs.lock().unwrap().clone();
+                        drop(session);
+                        drop(n);
+                        if !e.is_empty() {
+                            return Err(e.join("; "));
+                        }
+                        Ok("ok".into())
+                    }),
+                }
+            }
             // beatree BRANCH-stage workers: seed `mixed2` has two bottom branch nodes; one commit
             // deletes most of the leaves below the first one (it falls below the merge threshold and
             // its worker has to ask the right neighbour for nodes) and touches leaves below the second
@@ -1217,8 +1283,8 @@ impl Engine for SchedX {
         let thorough = tier == "thorough";
         let (harnesses, rule): (Vec<&str>, &str) = match prop {
             "C15" => (
-                vec!["H1", "H2", "H3", "H3nb", "H3ov", "H4", "H5", "H6"],
-                "schedx: closed harnesses of 2–3 real threads on two colliding keys (same value leaf, same merkle page), values stamped with the writer's version, rollback enabled: H1 reader∥blocking writer; H2 reader∥non-blocking writer (prepared changeset, retried blocking when handed back); H3/H3nb/H3ov two writers with changesets on one base (blocking / non-blocking / overlay) followed by reopen and rollback(1); H4 reader∥rollback; H5 reader∥writer∥writer; H6 one thread with two overlapping sessions∥writer. EVERY schedule of the visible points (API lock acquisitions with parking_lot's writer-preferring FIFO fairness modelled in the scheduler, the read-transaction wait, harness points between session operations) with ≤c preemptions is executed on a fresh store, c = 0,1,2 (thorough 3). Oracle per schedule: terminates (no enabled thread = deadlock); all reads and the proof of one session agree with one committed version and with session.prev_root(); exactly one of two competing changesets wins; final state, root and state after reopen are the winner's; rollback(1) restores the base. One case = one harness × one bound; evaluations = cases, transitions = scheduler steps, states = distinct schedules (trace digests).",
+                vec!["H1", "H2", "H3", "H3nb", "H3ov", "H4", "H5", "H6", "H7"],
+                "schedx: closed harnesses of 2–3 real threads on two colliding keys (same value leaf, same merkle page), values stamped with the writer's version, rollback enabled: H1 reader∥blocking writer; H2 reader∥non-blocking writer (prepared changeset, retried blocking when handed back); H3/H3nb/H3ov two writers with changesets on one base (blocking / non-blocking / overlay) followed by reopen and rollback(1); H4 reader∥rollback; H5 reader∥writer∥writer; H6 one thread with two overlapping sessions∥writer; H7 two threads proving different keys (present and absent) through ONE shared session on a cold store, with scheduling points at every I/O submission and every wait for a completion of the calling threads (the scheduler lets outstanding reads complete before it decides, so the enabled set does not depend on I/O speed). EVERY schedule of the visible points (API lock acquisitions with parking_lot's writer-preferring FIFO fairness modelled in the scheduler, the read-transaction wait, harness points between session operations) with ≤c preemptions is executed on a fresh store, c = 0,1,2 (thorough 3). Oracle per schedule: terminates (no enabled thread = deadlock); all reads and the proof of one session agree with one committed version and with session.prev_root(); exactly one of two competing changesets wins; final state, root and state after reopen are the winner's; rollback(1) restores the base. One case = one harness × one bound; evaluations = cases, transitions = scheduler steps, states = distinct schedules (trace digests).",
             ),
             "C20" => (
                 vec!["O1", "O2", "O2x3", "O3", "O4"],
